@@ -213,7 +213,7 @@ pub fn emit_fit_case<T: Sc>(out: &mut Out, fc: &FitCase<T>, with_stats: bool) {
         }
     };
     out.line(&format!("step build {}", slice_str(&c.init)));
-    emit_tables(out, &c.recipe, &c.init);
+    emit_tables(out, &c.recipe, &c.init, &c.w);
     emit_outputs(out, "impl", prob.as_ref());
     let build_calls = probe.take().len();
     out.line(&format!("buildcalls {}", build_calls));
@@ -251,7 +251,7 @@ pub fn emit_fit_case<T: Sc>(out: &mut Out, fc: &FitCase<T>, with_stats: bool) {
             out.line(&opt_mat("bestfit", &f.best_fit));
             let alpha: Vec<T> = f.problem.params().iter().copied().collect();
             out.line(&format!("step final {}", slice_str(&alpha)));
-            emit_tables(out, &c.recipe, &alpha);
+            emit_tables(out, &c.recipe, &alpha, &c.w);
             emit_outputs(out, "impl", f.problem.as_ref());
             if let Some((_, fresh)) = fresh_norm(c, &alpha) {
                 emit_outputs(out, "fresh", fresh.as_ref());
